@@ -19,6 +19,7 @@ type cutProxy struct {
 	onCut   func()
 	stall   time.Duration // when > 0 the proxy does not cut at the offset: it stops forwarding that direction for this long, once
 	stalled atomic.Bool
+	frag    int // when > 0 every forwarded chunk is written in segments of this many bytes (frame headers straddle reads)
 	cutOnce sync.Once
 	mu      sync.Mutex
 	conns   []net.Conn
@@ -114,7 +115,24 @@ func (p *cutProxy) pipe(from, to net.Conn, counted bool) {
 				}
 				p.count.Add(int64(n))
 			}
-			if _, werr := to.Write(chunk); werr != nil {
+			if p.frag > 0 {
+				for k := 0; len(chunk) > 0; k++ {
+					m := p.frag
+					if m > len(chunk) {
+						m = len(chunk)
+					}
+					if _, werr := to.Write(chunk[:m]); werr != nil {
+						p.cut(from, to)
+						return
+					}
+					chunk = chunk[m:]
+					if k%32 == 31 {
+						runtime.Gosched()
+					}
+				}
+				chunk = nil
+			}
+			if _, werr := to.Write(chunk); len(chunk) > 0 && werr != nil {
 				p.cut(from, to)
 				return
 			}
